@@ -4,6 +4,7 @@ from __future__ import annotations
 import itertools
 
 from .. import impl
+from ..impl import same
 from .. import structcase as sc
 from ..gen import alphabet as A
 from ..gen import defs, values
@@ -56,7 +57,7 @@ def cases(tier):
 
 
 def jobs(tier):
-    return [(tier, c) for c in defs.chunks(cases(tier), 8)] + [("refusal", tier), ("samename", tier), ("long", tier)]
+    return [(tier, c) for c in defs.chunks(cases(tier), 8)] + [("refusal", tier), ("samename", tier), ("long", tier), ("legacy", tier)]
 
 
 def build(ename, flabel, pos):
@@ -213,6 +214,44 @@ def refusal(tier) -> JobResult:
     return res
 
 
+LEGACY_DEFS = [
+    # (text for the legacy parser, struct name, [(input, expected plain value)])
+    ("#define n 3\nstruct A {\n uint8 n;\n uint8 data[n];\n uint8 t;\n};\n", "A", [(bytes([1, 9, 7, 6, 5]), {"n": 1, "data": [9], "t": 7}), (bytes([0, 7, 6]), {"n": 0, "data": [], "t": 7})]),
+    ("#define K 2\nstruct B {\n uint8 n;\n uint16 d[n * K];\n uint8 e[K];\n char s[];\n uint8 t;\n};\n", "B",
+     [(bytes([1, 1, 0, 2, 0, 8, 9]) + b"ab\x00\x07", {"n": 1, "d": [1, 2], "e": [8, 9], "s": b"ab", "t": 7})]),
+    ("struct C {\n uint8 k;\n uint8 m;\n uint8 x[k + m];\n uint8 y[k - 3];\n uint8 t;\n};\n", "C", [(bytes([1, 1, 5, 6, 7]), {"k": 1, "m": 1, "x": [5, 6], "y": [], "t": 7})]),
+]
+
+
+def legacy(tier) -> JobResult:
+    """The same length semantics through the legacy (regex) definition parser: counts refer to earlier fields before constants."""
+    from dissect.cstruct import cstruct
+
+    res = JobResult()
+    for text, name, cases_ in LEGACY_DEFS:
+        for compiled in (False, True):
+            cs = cstruct(endian="<")
+            case = {"legacy": name, "compiled": compiled}
+            try:
+                cs.load(text, deftype=cstruct.DEF_LEGACY, compiled=compiled)
+            except Exception as e:  # noqa: BLE001
+                res.violations.append(Violation("legacy:load-raises", f"legacy:load-raises|{name}", case, f"{text!r}: {impl.exc_sig(e)} {e!r}"))
+                continue
+            for data, exp in cases_:
+                res.evaluations += 1
+                res.states += 1
+                res.transitions += 1
+                res.nontrivial += 1
+                try:
+                    got = impl.norm(getattr(cs, name)(data))
+                except Exception as e:  # noqa: BLE001
+                    got = f"{impl.exc_sig(e)} {e!r}"
+                if not same(got, exp):
+                    res.violations.append(Violation("legacy:value", f"legacy:value|{name}", dict(case, input=data.hex()), f"{text!r} (legacy parser, compiled={compiled}) on {data.hex()}: {got}, expected {exp}"))
+    res.samples.append({"legacy": [d[1] for d in LEGACY_DEFS]})
+    return res
+
+
 def samename(tier) -> JobResult:
     """Two *different* element types that carry the same name inside one cstruct object (inline named structs): every array form
     must use its own element type (element boundaries follow the element size)."""
@@ -305,6 +344,8 @@ def long_arrays(tier) -> JobResult:
 def run(job) -> JobResult:
     if job[0] == "long":
         return long_arrays(job[1])
+    if job[0] == "legacy":
+        return legacy(job[1])
     if job[0] == "refusal":
         return refusal(job[1])
     if job[0] == "samename":
@@ -329,6 +370,8 @@ def replay(case):
         return [v for v in refusal("thorough").violations if v.case == case]
     if "samename" in case:
         return [v for v in samename("thorough").violations if v.case == case]
+    if "legacy" in case:
+        return [v for v in legacy("thorough").violations if v.case == case]
     if "long" in case:
         return [v for v in long_arrays("thorough").violations if v.case == case]
     res = JobResult()
